@@ -398,6 +398,245 @@ def run_aln_case(case, out=None):
 
 
 # --------------------------------------------------------------------------
+# alignments with a history: rows with different gap layouts, features on EVERY row, aln[a:b] with a > 0, rc,
+# further slices; every way of asking for features, each compared with the original ungapped coordinates
+# --------------------------------------------------------------------------
+def gen_aln_hist_case(rng):
+    n_cols = rng.choice([10, 12, 16])
+    names = ["x", "y", "z"]
+    rows = {}
+    for k, name in enumerate(names):
+        lead = rng.choice([0, 1, 2, 3, 4])  # different numbers of gaps before any slice start
+        body = "".join(rng.choice("ACGT") if rng.random() < 0.78 else "-" for _ in range(n_cols - lead))
+        row = "-" * lead + body
+        if sum(c != "-" for c in row) < 3:
+            row = row[:lead] + "ACG" + row[lead + 3 :]
+        rows[name] = row[:n_cols]
+    feats = []
+    for name in names:
+        L = sum(c != "-" for c in rows[name])
+        for i in range(rng.randint(1, 2)):
+            k = rng.choice([1, 1, 2, 3])
+            while L < 2 * k:
+                k -= 1
+            if k == 0:
+                continue
+            pts = sorted(rng.sample(range(0, L + 1), 2 * k))
+            feats.append(dict(seqid=name, name=f"{name}{i}", strand=rng.choice(["+", "-"]),
+                              spans=[[pts[2 * j], pts[2 * j + 1]] for j in range(k)]))
+    aln_feats = []
+    for i in range(rng.choice([0, 0, 0, 1, 2])):
+        a = rng.randint(0, n_cols - 2)
+        b = rng.randint(a + 1, n_cols)
+        aln_feats.append(dict(name=f"al{i}", spans=[[a, b]], strand="+"))
+    a = rng.randint(1, n_cols // 2)  # the first slice never starts at column 0
+    b = rng.randint(a + 2, n_cols)
+    ops = [["s", a, b]]
+    n = b - a
+    for _ in range(rng.randint(0, 3)):
+        r = rng.random()
+        if r < 0.4 or n < 2:
+            ops.append(["rc"])
+        else:
+            # further slices keep at least one column (slicing an empty alignment is C03's business)
+            x = rng.randint(0, min(2, n - 1))
+            y = rng.choice([None, n, rng.randint(x + 1, n)])
+            if y is not None and y < n and rng.random() < 0.3:
+                y = y - n  # the same stop written as a negative index
+            ops.append(["s", x, y])
+            n = (n if y is None else y if y >= 0 else n + y) - x
+    if rng.random() < 0.12:
+        ops = ops[1:]
+    return dict(rows=rows, feats=feats, aln_feats=aln_feats, ops=ops)
+
+
+def build_aln_hist(case):
+    import cogent3
+
+    aln = cogent3.make_aligned_seqs(case["rows"], moltype="dna", array_align=False)
+    for f in case["feats"]:
+        aln.annotation_db.add_feature(seqid=f["seqid"], biotype="gene", name=f["name"], spans=[tuple(s) for s in f["spans"]], strand=f["strand"])
+    for f in case["aln_feats"]:
+        aln.add_feature(biotype="region", name=f["name"], spans=[tuple(s) for s in f["spans"]], on_alignment=True, strand=f["strand"])
+    n = len(next(iter(case["rows"].values())))
+    state = (0, n, False)
+    for op in case["ops"]:
+        if op[0] == "rc":
+            aln = aln.rc()
+            state = (state[0], state[1], not state[2])
+        else:
+            aln = aln[op[1] : op[2]]
+            A, B, rev = state
+            a, b, _ = slice(op[1], op[2], None).indices(B - A)
+            b = max(a, b)
+            state = (B - b, B - a, rev) if rev else (A + a, A + b, rev)
+    return aln, state
+
+
+def _row_str(sl, sid):
+    return str(sl.named_seqs[sid]).replace("-", "")
+
+
+def run_aln_hist_case(case, out=None):
+    fails = []
+    inp = dict(aln_hist_case=case)
+    try:
+        aln, (A, B, rev) = build_aln_hist(case)
+    except Exception as e:  # noqa: BLE001
+        return [("building / slicing the alignment raised", inp, "alignment", f"{type(e).__name__}: {e}", f"alnh:build:{type(e).__name__}")]
+    if B - A == 0:
+        return []
+    rows = case["rows"]
+    names = list(rows)
+    ungapped = {k: v.replace("-", "") for k, v in rows.items()}
+    col_of = {k: [i for i, c in enumerate(v) if c != "-"] for k, v in rows.items()}
+    seg = {}
+    for k in names:
+        ps = [p for p, c in enumerate(col_of[k]) if A <= c < B]
+        seg[k] = (ps[0], ps[-1] + 1) if ps else None
+    want_rows = {k: (rc(v[A:B]) if rev else v[A:B]) for k, v in rows.items()}
+    got_rows = aln.to_dict()
+    if got_rows != want_rows:
+        return [("sliced alignment differs from slicing the gapped strings (C03 territory)", inp, want_rows, got_rows, "alnh:rows")]
+    flav = f"{'sliced' if A > 0 else 'from0'}:{'rev' if rev else 'fwd'}"
+
+    def oracle(f):
+        lo, hi = seg[f["seqid"]]
+        s = "".join(ungapped[f["seqid"]][max(a, lo) : min(b, hi)] for a, b in sorted(f["spans"]) if max(a, lo) < min(b, hi))
+        return rc(s) if f["strand"] == "-" else s
+
+    def hull(f):
+        return min(a for a, _ in f["spans"]), max(b for _, b in f["spans"])
+
+    def expected(sid, partial):
+        lo, hi = seg[sid]
+        fs = [f for f in case["feats"] if f["seqid"] == sid]
+        if partial:
+            return [f for f in fs if hull(f)[0] < hi and lo < hull(f)[1]]
+        return [f for f in fs if lo <= hull(f)[0] and hull(f)[1] <= hi]
+
+    byname = {f["name"]: f for f in case["feats"]}
+
+    def check(api, sid, feats_got, partial, as_alignment):
+        rowc = "first-row" if sid == names[0] else "other-row"
+        want_names = sorted(f["name"] for f in expected(sid, partial))
+        got_names = sorted(f.name for f in feats_got)
+        if out is not None:
+            out["evaluations"] += 1
+            bump(out, "aln_api", api)
+            bump(out, "aln_row", rowc)
+            bump(out, "aln_view", flav)
+        if got_names != want_names:
+            fails.append((f"{api}: wrong set of features for row {sid}", dict(inp, seqid=sid, allow_partial=partial), want_names, got_names,
+                          f"alnh:{api}:set:{rowc}:{flav}"))
+            return
+        for f in feats_got:
+            spec = byname[f.name]
+            want = oracle(spec)
+            try:
+                sl = f.get_slice()
+                got = _row_str(sl, sid) if as_alignment else str(sl)
+            except Exception as e:  # noqa: BLE001
+                got = f"raised {type(e).__name__}: {e}"
+            if out is not None and (len(spec["spans"]) > 1 or spec["strand"] == "-" or sid != names[0]):
+                out["nontrivial"].add(("alnh", api, json.dumps(case["rows"]), json.dumps(case["ops"]), f.name))
+            if got != want:
+                fails.append((f"{api}: feature slice differs from the residues at the original ungapped coordinates",
+                              dict(inp, seqid=sid, feature=spec, allow_partial=partial), want, got,
+                              f"alnh:{api}:slice:{rowc}:{flav}:{spec['strand']}:{'multi' if len(spec['spans']) > 1 else 'single'}"))
+
+    live = [k for k in names if seg[k] is not None]
+    for sid in live:
+        for partial in (True, False):
+            for api, call in (
+                ("seqid", lambda: [f for f in aln.get_features(seqid=sid, on_alignment=False, allow_partial=partial)]),
+                ("seqid-default", lambda: [f for f in aln.get_features(seqid=sid, allow_partial=partial) if f.name in byname]),
+            ):
+                try:
+                    got = call()
+                except Exception as e:  # noqa: BLE001
+                    fails.append((f"{api}: get_features raised", dict(inp, seqid=sid, allow_partial=partial), "features", f"{type(e).__name__}: {e}",
+                                  f"alnh:{api}:raises:{type(e).__name__}:{flav}"))
+                    continue
+                check(api, sid, got, partial, True)
+        # the ungapped Sequence of the row answers for itself
+        try:
+            got = list(aln.get_seq(sid).get_features(allow_partial=True))
+            check("get_seq", sid, got, True, False)
+        except Exception as e:  # noqa: BLE001
+            fails.append(("get_seq(...).get_features raised", dict(inp, seqid=sid), "features", f"{type(e).__name__}: {e}", f"alnh:get_seq:raises:{type(e).__name__}:{flav}"))
+    # all rows at once
+    if len(live) == len(names):
+        try:
+            allf = list(aln.get_features(on_alignment=False, allow_partial=True))
+            for sid in names:
+                check("all-rows", sid, [f for f in allf if byname[f.name]["seqid"] == sid], True, True)
+        except Exception as e:  # noqa: BLE001
+            fails.append(("get_features(on_alignment=False) raised", inp, "features", f"{type(e).__name__}: {e}", f"alnh:all-rows:raises:{type(e).__name__}:{flav}"))
+    # features projected from the other rows onto a target row
+    if len(live) == len(names):
+        target = names[-1]
+        try:
+            pfs = aln.get_projected_features(seqid=target, allow_partial=True)
+        except Exception as e:  # noqa: BLE001
+            pfs = None
+            fails.append(("get_projected_features raised", dict(inp, target=target), "features", f"{type(e).__name__}: {e}", f"alnh:projected:raises:{type(e).__name__}:{flav}"))
+        for pf in pfs or []:
+            spec = byname.get(pf.name)
+            if spec is None:
+                continue
+            lo, hi = seg[spec["seqid"]]
+            cols = col_of[spec["seqid"]]
+            pieces = []
+            for a, b in sorted(spec["spans"]):
+                a2, b2 = max(a, lo), min(b, hi)
+                if a2 < b2:
+                    # exactly the alignment columns that hold the feature's residues (gap columns of the source
+                    # row inside a span are not part of the feature)
+                    pieces.append("".join(rows[target][cols[q]] for q in range(a2, b2) if rows[target][cols[q]] != "-"))
+            want = "".join(pieces)
+            want = rc(want) if spec["strand"] == "-" else want
+            try:
+                got = str(pf.get_slice())
+            except Exception as e:  # noqa: BLE001
+                got = f"raised {type(e).__name__}: {e}"
+            if out is not None:
+                out["evaluations"] += 1
+                bump(out, "aln_api", "projected")
+            if got != want:
+                fails.append(("projected feature differs from the target row's residues in the feature's columns",
+                              dict(inp, target=target, feature=spec), want, got, f"alnh:projected:slice:{flav}:{spec['strand']}"))
+    # alignment-level features: the same alignment columns after the history
+    if case["aln_feats"]:
+        try:
+            afs = list(aln.get_features(on_alignment=True, allow_partial=True))
+        except Exception as e:  # noqa: BLE001
+            afs = None
+            fails.append(("get_features(on_alignment=True) raised", inp, "features", f"{type(e).__name__}: {e}", f"alnh:on_alignment:raises:{type(e).__name__}:{flav}"))
+        for spec in case["aln_feats"] if afs is not None else []:
+            a, b = spec["spans"][0]
+            a2, b2 = max(a, A), min(b, B)
+            want = {k: v[a2:b2] if a2 < b2 else "" for k, v in rows.items()}
+            got_f = [f for f in afs if f.name == spec["name"]]
+            if out is not None:
+                out["evaluations"] += 1
+                bump(out, "aln_api", "on_alignment")
+            if not got_f:
+                if a2 < b2:
+                    fails.append(("alignment-level feature not returned although it overlaps the slice", dict(inp, feature=spec), want, "absent",
+                                  f"alnh:on_alignment:missing:{flav}"))
+                continue
+            try:
+                got = got_f[0].get_slice().to_dict()
+            except Exception as e:  # noqa: BLE001
+                got = f"raised {type(e).__name__}: {e}"
+            if got != want:
+                fails.append(("alignment-level feature denotes different columns after the history", dict(inp, feature=spec), want, got,
+                              f"alnh:on_alignment:slice:{flav}"))
+    return fails
+
+
+# --------------------------------------------------------------------------
 # spec check
 # --------------------------------------------------------------------------
 def spec_check(ctx, budget):
@@ -407,8 +646,11 @@ def spec_check(ctx, budget):
         "copy(sliced) / deepcopy, every query window on the lattice of feature edges -1/0/+1 (plus negative-index and "
         "None spellings) x allow_partial; checks: the set of returned features = hull overlap / containment rule, each "
         "feature.get_slice() = parent residues in spans ∩ retained segment read on the feature strand, no exception. "
-        "A strided-view stream checks set + no exception only. Alignments with gapped rows: own-row slice and "
-        "projection vs a column oracle. non-trivial = returned feature that is partly outside the view, multi-span, or "
+        "A strided-view stream checks no exception only. Alignments with gapped rows: own-row slice and projection vs "
+        "a column oracle; alignments with a history (rows with different leading gaps, features on every row, "
+        "aln[a:b] with a > 0, rc, further slices): get_features(seqid) / default on_alignment / all rows / "
+        "get_seq().get_features() / get_projected_features / on_alignment features, each slice vs the residues at the "
+        "original ungapped coordinates. non-trivial = returned feature that is partly outside the view, multi-span, or "
         "on a reversed view; alignment feature spanning gap columns"
     )
     rng = ctx.subrng(f"spec{budget}")
@@ -438,6 +680,12 @@ def spec_check(ctx, budget):
     for i in range(30 * budget):
         case = gen_aln_case(rng)
         for what, inp, want, got, sig in run_aln_case(case, out):
+            add_failure(out, "spec", what, inp, want, got, sig=sig)
+    for i in range(60 * budget):
+        case = gen_aln_hist_case(rng)
+        for op in case["ops"]:
+            bump(out, "aln_op", op[0])
+        for what, inp, want, got, sig in run_aln_hist_case(case, out):
             add_failure(out, "spec", what, inp, want, got, sig=sig)
     return out
 
@@ -625,6 +873,8 @@ def match_finding(f, k):
     r = k.get("restrict") or {}
     if r.get("got_contains") and r["got_contains"] not in str(f.get("got")):
         return False
+    if r.get("raises_contains") and ":raises:" in f.get("sig", "") and r["raises_contains"] not in str(f.get("got")):
+        return False
     return True
 
 
@@ -638,6 +888,8 @@ def _first(fails):
 
 
 def check_witness(ctx, w):
+    if "aln_hist_case" in w:
+        return _first(run_aln_hist_case(w["aln_hist_case"]))
     if "aln_case" in w:
         return _first(run_aln_case(w["aln_case"]))
     return _first(run_case(w["case"], wins=[tuple(w["window"])]))
@@ -646,12 +898,17 @@ def check_witness(ctx, w):
 def replay(ctx, data):
     f = data.get("failing_input") or {}
     inp = f.get("input") or {}
-    if "aln_case" in inp:
+    if "aln_hist_case" in inp:
+        fails = run_aln_hist_case(inp["aln_hist_case"])
+    elif "aln_case" in inp:
         fails = run_aln_case(inp["aln_case"])
     elif "case" in inp:
         fails = run_case(inp["case"], wins=[tuple(inp["window"])] if "window" in inp else None, rng=ctx.subrng("replay"))
     else:
         return False
+    if f.get("sig"):
+        # the replay is about the recorded failure class, not about other (e.g. known) failures of the same input
+        fails = [x for x in fails if x[4] == f["sig"]]
     for x in fails[:3]:
         print(x[0], "| expected", str(x[2])[:300], "| got", str(x[3])[:300])
     return bool(fails)
